@@ -192,6 +192,8 @@ impl<'a> GenericDataEncoder<'a> {
             if self.data.starts_with(head) {
                 self.codewords.push(cw);
                 self.data = &self.data[head.len()..self.data.len() - MACRO_TRAIL.len()];
+                // backup() re-indexes `input`, it must be the same byte range
+                self.input = self.data;
                 break;
             }
         }
